@@ -12,7 +12,7 @@ FUZZ = {"props": ["astar", "bfs"], "quick": [2, 800], "thorough": [8, 30000]}
 RULE = ("Directed multigraphs (1-9 nodes, integer edge costs 0..5 incl. zero-cost edges, self-loops, parallel edges, "
         "dead ends, 0-3 goals possibly unreachable) x representation of the single-outcome transition / initial "
         "distribution (next_state, DeterministicDistribution, 1-entry DictDistribution, 1-element "
-        "UniformDistribution, DeterministicShortestPathProblem subclass) x heuristic (zero, exact, dyadic fraction "
+        "UniformDistribution, DeterministicShortestPathProblem subclass) x heuristic (zero, exact, relaxed-goal-set distance, capped / shifted exact, dyadic fraction "
         "of exact; consistent by construction) x tie_breaking x seed x randomize_action_order. Oracle: own Dijkstra "
         "/ BFS and a path validator. Non-trivial: no goal reachable from a start with >=2 reachable nodes, or a "
         "reachable goal at distance >0 with a strictly sub-optimal alternative edge or a zero-cost edge on a "
@@ -65,7 +65,12 @@ def astar_cases(draw, tier="quick"):
     seed = None
     if tb == "random" or rao:
         seed = draw(st.one_of(st.sampled_from([0, 1, 2 ** 31 - 1]), st.integers(0, 10 ** 6)))
-    return {"graph": g, "heuristic": draw(st.sampled_from(["zero", "exact", "0.25", "0.5", "0.75"])),
+    hk = draw(st.sampled_from(["zero", "exact", "0.25", "0.5", "0.75", "relaxed", "relaxed", "cap", "minus"]))
+    if hk == "relaxed":
+        hk = "relaxed:" + ",".join(str(u) for u in draw(st.lists(st.integers(0, g["n"] - 1), min_size=1, max_size=max(1, g["n"] // 3), unique=True)))
+    elif hk in ("cap", "minus"):
+        hk = f"{hk}:{draw(st.integers(1, 6))}"
+    return {"graph": g, "heuristic": hk,
             "tie_breaking": tb, "randomize_action_order": rao, "seed": seed}
 
 
@@ -107,13 +112,14 @@ def ref_bfs_from(g, src):
     return dist
 
 
-def ref_to_go(g):
+def ref_to_go(g, goals=None):
     """Exact cost-to-go to the nearest goal for every node (inf if none), by Bellman-Ford."""
     n = g["n"]
-    d = [0 if u in g["goals"] else float("inf") for u in range(n)]
+    goals = g["goals"] if goals is None else goals
+    d = [0 if u in goals else float("inf") for u in range(n)]
     for _ in range(n + 1):
         for u in range(n):
-            if u in g["goals"]:
+            if u in goals:
                 continue
             for a, v, c in g["edges"][u]:
                 if c + d[v] < d[u]:
@@ -216,6 +222,18 @@ def prop_astar(case, ctx):
     h = case["heuristic"]
     if h == "zero":
         hv = lambda s: 0
+    elif h.startswith("relaxed:"):
+        # exact cost-to-go of a relaxed problem with extra goal nodes: consistent (a distance to a set), admissible, and
+        # not proportional to the exact heuristic (0 on part of the state space)
+        extra = [int(x) for x in h.split(":", 1)[1].split(",") if x != ""]
+        tg2 = ref_to_go(g, goals=sorted(set(g["goals"]) | set(extra)))
+        M2 = max([M] + [d + 1 for d in tg2 if d != float("inf")])     # dead ends: above every finite value (consistency)
+        hv = lambda s: -(tg2[idx[s]] if tg2[idx[s]] != float("inf") else M2)
+    elif h.startswith("cap:") or h.startswith("minus:"):
+        # min(h*, c) and max(0, h* - c) are consistent as well
+        c_ = int(h.split(":", 1)[1])
+        f_ = (lambda x: min(x, c_)) if h.startswith("cap:") else (lambda x: max(0, x - c_))
+        hv = lambda s: -f_(togo[idx[s]] if togo[idx[s]] != float("inf") else M)
     else:
         alpha = 1.0 if h == "exact" else float(h)
         hv = lambda s: -(alpha * (togo[idx[s]] if togo[idx[s]] != float("inf") else M))
@@ -286,16 +304,20 @@ def _expand_bulk(params):
     import random as _random
     n, deg, maxc, fwd, seed = params
     rng = _random.Random(seed)
+    zero_p = [0.0, 0.15, 0.35][seed % 3 if seed % 7 else 0]      # share of free (zero-cost) moves
     edges = []
     for u in range(n):
         row = []
         for a in range(rng.randint(1, deg)):
             v = min(n - 1, u + rng.randint(1, fwd)) if rng.random() < 0.5 else rng.randrange(n)
-            row.append([a, v, rng.randint(0, maxc)])
+            row.append([a, v, 0 if rng.random() < zero_p else rng.randint(0, maxc)])
         edges.append(row)
+    hk = ["zero", "0.5", "exact", "relaxed", "relaxed"][seed % 5]
+    if hk == "relaxed":
+        hk = "relaxed:" + ",".join(str(u) for u in sorted(rng.sample(range(n), rng.randint(1, max(1, n // 4)))))
     return {"graph": {"n": n, "labels": list(range(n)), "edges": edges, "goals": [n - 1], "start": 0, "rep": "next_state",
                       "init_rep": "initial_state"},
-            "heuristic": ["zero", "0.5", "exact"][seed % 3], "tie_breaking": ["lifo", "fifo", "random"][seed % 3],
+            "heuristic": hk, "tie_breaking": ["lifo", "fifo", "random"][seed % 3],
             "randomize_action_order": bool(seed % 2), "seed": seed if (seed % 3 == 2 or seed % 2) else None}
 
 
